@@ -2224,8 +2224,13 @@ class SQLModel:
             # an operand's own ORDER BY / LIMIT would bind to the whole compound select: keep them in a sub-select
             def enclose_suffix(sub_sql, substr):
                 sub_suffix = getattr(sub_sql.near_sql, "suffix", None)
-                if (sub_suffix is None) or (len(sub_suffix) < 1):
-                    return substr
+                if (sub_suffix is None) or (
+                    not any(
+                        si.strip().upper().startswith(("ORDER BY", "LIMIT"))
+                        for si in sub_suffix
+                    )
+                ):
+                    return substr  # WHERE / GROUP BY bind to their own SELECT
                 return (
                     ["SELECT", sql_format_options.sql_indent + "*", "FROM", "("]
                     + [sql_format_options.sql_indent + si for si in substr]
